@@ -55,13 +55,10 @@ impl SegmentBlock {
                     let next_offset = event_offset + event.size;
 
                     if get_uuid_flag(&transaction_id) {
-                        // Events with a true transaction id flag are always approved
-                        if events.is_empty() {
-                            // If its the first event we encountered, then return it alone
-                            return Ok((Some(CommittedEvents::Single(event)), Some(next_offset)));
-                        }
-
-                        events.push(event);
+                        // A single-event transaction is complete by itself. Events collected
+                        // before it belong to a transaction that was never committed (its commit
+                        // record would directly follow its events): drop them.
+                        return Ok((Some(CommittedEvents::Single(event)), Some(next_offset)));
                     } else if transaction_id != pending_transaction_id {
                         // Unexpected transaction, we'll start a new pending transaction
                         events = smallvec![event];
@@ -412,16 +409,13 @@ impl BucketSegmentReader {
                         let next_offset = offset + event.size;
 
                         if get_uuid_flag(&transaction_id) {
-                            // Events with a true transaction id flag are always approved
-                            if events.is_empty() {
-                                // If its the first event we encountered, then return it alone
-                                polonius_return!(Ok((
-                                    Some(CommittedEvents::Single(event)),
-                                    Some(next_offset),
-                                )));
-                            }
-
-                            events.push(event);
+                            // A single-event transaction is complete by itself. Events collected
+                            // before it belong to a transaction that was never committed (its
+                            // commit record would directly follow its events): drop them.
+                            polonius_return!(Ok((
+                                Some(CommittedEvents::Single(event)),
+                                Some(next_offset),
+                            )));
                         } else if transaction_id != pending_transaction_id {
                             // Unexpected transaction, we'll start a new pending transaction
                             events = smallvec![event];
